@@ -197,6 +197,7 @@ func init() {
 			{Name: "mod-thresholds-raise", Sc: scMod(paramSet("0.1", "0.001"), []Template{tMod1}, AlphaOpts{RespKinds: []string{"ok"}, ModUpdates: []CtxUpdate{{Name: "thr2", Threshold: 2}}, BindOps: []Action{actDisable("a", "P2", "O2"), actEnable("a", "P2", "O2", 0)}}, d, b, m), Oracles: o},
 		}
 		runs = append(runs, priceFractionsRun(o, MonFlags{}, d-1, b, m), tightBalanceRun(o, d, b, m))
+		runs = append(runs, twoContextsOneUnaffordableRuns(o, d-2, b-1, m)...)
 		// the owning module lowers the fee cap of its other contexts from inside the state callback of one that cannot pay (both processing orders)
 		for _, fl := range []bool{false, true} {
 			sc := scModCapSiblings(defaultParams(), []Template{tModPoor, tMod1, tMod2}, AlphaOpts{RespKinds: []string{"ok"}, ModOps: []string{"mpause", "mstart"}}, d-1, b-1, m)
@@ -249,6 +250,7 @@ func init() {
 		runs = append(runs, RunSpec{Name: "mod-reentrant", Sc: scModReentrant(defaultParams(), []Template{tMod1, tMod2, tModPoor},
 			AlphaOpts{RespKinds: []string{"ok", "bad"}, ModOps: []string{"mpause", "mstart"}}, d, b, m), Oracles: []Oracle{oracleC09{}}})
 		runs = append(runs, tightBalanceRun([]Oracle{oracleC09{}}, d, b, m))
+		runs = append(runs, twoContextsOneUnaffordableRuns([]Oracle{oracleC09{}}, d-2, b-1, m)...)
 		for _, fl := range []bool{false, true} {
 			sc := scModPauseSiblings(defaultParams(), []Template{tModPoor, tMod1, tMod2}, AlphaOpts{RespKinds: []string{"ok"}, ModOps: []string{"mstart"}}, d-1, b-1, m)
 			sc.FlipIDs = fl
@@ -484,6 +486,7 @@ func init() {
 			{Name: "fees-self-export-points", Sc: scFeesSelf(paramSet("0.1", "0.001"), 5+d, 3, 3), Oracles: o, Post: genesisPost},
 			{Name: "names-export-points", Sc: scNames(defaultParams(), 5+d, 3, 4), Oracles: o, Post: genesisPost},
 			{Name: "mod-export-points", Sc: scMod(defaultParams(), []Template{tMod1, tModPoor}, AlphaOpts{RespKinds: []string{"ok"}, ModOps: []string{"mpause", "mkill"}}, 6+d, 4, 2), Oracles: o, Post: genesisPost},
+			{Name: "msvc-export-points", Sc: scMsvc(defaultParams(), 4+d, 3, 3), Oracles: o, Post: genesisPost},
 			{Name: "life-restart-export-points", Sc: restartable(scLife(defaultParams(), []Template{tRep2, tLong}, mainO, 6+d, 4, 2)), Oracles: o, Post: genesisPost},
 			{Name: "fx-export-points", Sc: scFX(defaultParams(), "fusd1v", []Template{tFxOne, tFxRep}, AlphaOpts{RespKinds: []string{"ok"}, CtxOps: []string{"pause"}, Withdraw: []string{"O1:"},
 				BindOps: []Action{actUpdate("a", "P1", "O1", 0, "fcent150", 0), actUpdate("a", "P2", "O2", 0, "fkilo1h", 0)}}, fxSpec(), 5+d, 3, 2), Oracles: o, Post: genesisPost},
@@ -624,4 +627,19 @@ func priceUpdateRejectedRun(o []Oracle, mon MonFlags, d, b, m int) RunSpec {
 func twoCreatesRun(o []Oracle, mon MonFlags, d, b, m int) RunSpec {
 	return RunSpec{Name: "mod-two-creates-in-one-message", Sc: scMod(defaultParams(), []Template{tMod1, tModDup},
 		AlphaOpts{RespKinds: []string{"ok"}, ModOps: []string{"mpause", "mkill"}}, d, b, m), Oracles: o, Mon: mon}
+}
+
+// twoContextsOneUnaffordableRun: two contexts of the same consumer are due in one block; the consumer can pay one of them
+// (1 to P2) but not the other (2 + 1); both processing orders.
+var tPoorBoth = Template{Name: "poorboth", Consumer: "C2", Service: "a", Providers: []string{"P1", "P2"}, Cap: 5, Timeout: 1, Repeated: true, Freq: 1, Total: 2}
+var tPoorP2 = Template{Name: "poorp2", Consumer: "C2", Service: "a", Providers: []string{"P2"}, Cap: 5, Timeout: 1, Repeated: true, Freq: 1, Total: 2}
+
+func twoContextsOneUnaffordableRuns(o []Oracle, d, b, m int) []RunSpec {
+	var out []RunSpec
+	for _, fl := range []bool{false, true} {
+		sc := withFunds(scLife(defaultParams(), []Template{tPoorBoth, tPoorP2}, AlphaOpts{RespKinds: []string{"ok"}, CtxOps: []string{"start"}}, d, b, m), 6, 2)
+		sc.FlipIDs = fl
+		out = append(out, RunSpec{Name: fmt.Sprintf("two-contexts-one-unaffordable(flip=%v)", fl), Sc: sc, Oracles: o})
+	}
+	return out
 }
